@@ -156,7 +156,14 @@ func c04DeriveFamily() [][]*c04Node {
 			res = append(res, []*c04Node{{K: "blk", Body: []*c04Node{w(1), dv(true, w(2)), q()}, Out: out, ID: 1, Must: false}, q()})
 			// T3: a nested block invoked on a derived handle (ignored by the outer function, which returns nil)
 			res = append(res, []*c04Node{{K: "blk", Body: []*c04Node{w(1),
-				dv(false, &c04Node{K: "blk", Body: []*c04Node{w(2)}, Out: out, ID: 1, Must: true}), q()}, Out: 0, ID: 2, Must: true}, q()})
+				dv(false, &c04Node{K: "blk", Body: []*c04Node{w(2), q()}, Out: out, ID: 1, Must: true}), q()}, Out: 0, ID: 2, Must: true}, q()})
+			// T8: nested block inside a block that was itself invoked on the derived handle (the transaction handle is then a
+			//     clone = 2 handle carrying the derivation's Statement); reads at both levels
+			res = append(res, []*c04Node{dv(true, &c04Node{K: "blk", Body: []*c04Node{w(1),
+				{K: "blk", Body: []*c04Node{q(), w(2)}, Out: out, ID: 1, Must: false}, q()}, Out: 0, ID: 2, Must: true}), q()})
+			// T9: … and behind Session{NewDB: true} (clone = 1 handle whose Statement still holds the derivation's state)
+			res = append(res, []*c04Node{{K: "blk", Body: []*c04Node{w(1), dv(true, outer("newdb:Session",
+				&c04Node{K: "blk", Body: []*c04Node{q(), outer("keep:Session", q()), w(2)}, Out: out, ID: 1, Must: false})), q()}, Out: 0, ID: 2, Must: true}, q()})
 			// T7: the same below a per-session PrepareStmt handle / a chained handle (outer derivation × inner derivation)
 			for _, ok := range []string{"prep:Session", "keep:Session"} {
 				res = append(res, []*c04Node{outer(ok, &c04Node{K: "blk", Body: []*c04Node{w(1), dv(true, w(2)), q()}, Out: out, ID: 1, Must: false}), q()})
